@@ -30,7 +30,6 @@ with an oracle that does not look at how pyglove builds the string:
 
 Drivers: drv_positions, drv_option_pairs, drv_controls, drv_scoping.
 """
-import copy
 import html as _html
 import html.entities as _entities
 import re
@@ -672,21 +671,21 @@ NOTIP = [('enable_summary_tooltip', 'False'), ('enable_key_tooltip', 'False')]
 POSITIONS = [
     # string leaves
     ('tree.str-leaf', '', '{P}', [], 'str'),
-    ('tree.str-leaf', '', "{{'k': {P}}}", [], 'str'),
-    ('tree.str-leaf', '', 'pg.Dict(k={P})', [], 'str'),
+    ('tree.str-leaf', '', "{{'kk7': {P}}}", [], 'str'),
+    ('tree.str-leaf', '', 'pg.Dict(kk7={P})', [], 'str'),
     ('tree.str-leaf', '', '[1, {P}]', [], 'str'),
     ('tree.str-leaf', '', 'pg.List([{P}, 2])', [], 'str'),
     ('tree.str-leaf', '', '({P}, 2)', [], 'str'),
-    ('tree.str-leaf', '', "{{'a': [{{'b': ({P},)}}]}}", [], 'str'),
+    ('tree.str-leaf', '', "{{'ka7': [{{'kb7': ({P},)}}]}}", [], 'str'),
     ('tree.str-leaf', PRE_IN, 'In({P})', [], 'str'),
-    ('tree.str-leaf', PRE_IN, "pg.Dict(o=In({P}, 6))", [], 'str'),
+    ('tree.str-leaf', PRE_IN, "pg.Dict(ko7=In({P}, 6))", [], 'str'),
     ('tree.str-leaf.long', '', "{P} + 'y' * 90", [], 'str'),
-    ('tree.str-leaf.long', '', "{{'k': 'y' * 90 + {P}}}", [], 'str'),
+    ('tree.str-leaf.long', '', "{{'kk7': 'y' * 90 + {P}}}", [], 'str'),
     ('tree.str-leaf.long', '', "['y' * 90 + {P}]", [], 'str'),
     # dict keys
     ('tree.key@summary-style', '', '{{{P}: 1}}', [], 'text'),
     ('tree.key@summary-style', '', "pg.Dict({{{P}: 'v'}})", [], 'text'),
-    ('tree.key@summary-style', '', "{{'a': {{{P}: [1]}}}}", [], 'text'),
+    ('tree.key@summary-style', '', "{{'ka7': {{{P}: [1]}}}}", [], 'text'),
     ('tree.key@summary-style', PRE_SK, 'SK(**{{{P}: 1}})', [], 'text'),
     ('tree.key@label-style', '', '{{{P}: 1}}', [('key_style', "'label'")], 'text'),
     ('tree.key@label-style', '', "pg.Dict({{{P}: 'v'}})", [('key_style', "'label'")], 'text'),
@@ -695,21 +694,21 @@ POSITIONS = [
      [('key_style', "lambda k, v, p: 'label'")], 'text'),
     # name / title / root_path options
     ('tree.name-option', '', '1', [('name', '{P}')], 'text'),
-    ('tree.name-option', '', "{{'a': 1}}", [('name', '{P}')], 'text'),
+    ('tree.name-option', '', "{{'ka7': 1}}", [('name', '{P}')], 'text'),
     ('tree.name-option', PRE_IN, "In('x')", [('name', '{P}'), ('root_path', "pg.KeyPath('r')")], 'text'),
     ('tree.title-option', '', '[1]', [('title', '{P}')], 'text'),
     ('tree.title-option', '', "'abc'", [('title', '{P}')], 'text'),
     ('tree.root-path-option', '', '1', [('name', "'n'"), ('root_path', 'pg.KeyPath([{P}])')], 'none'),
-    ('tree.root-path-option', '', "{{'a': [1]}}", [('root_path', 'pg.KeyPath([{P}, 0])')], 'none'),
+    ('tree.root-path-option', '', "{{'ka7': [1]}}", [('root_path', 'pg.KeyPath([{P}, 0])')], 'none'),
     # class names
     ('tree.class-name', '', 'type({P}, (pg.Object,), {{}})()', [], 'text'),
     ('tree.class-name', '', '[type({P}, (), {{}})()]', [], 'text'),
-    ('tree.class-name', '', "{{'c': type({P}, (), {{}})}}", [], 'none'),
+    ('tree.class-name', '', "{{'kc7': type({P}, (), {{}})}}", [], 'none'),
     # formatted objects
     ('tree.repr-leaf', '', "type('Pl', (), {{'__repr__': lambda s: {P}}})()", [], 'text'),
     ('tree.repr-leaf', '', "[ValueError({P})]", [], 'none'),
-    ('tree.repr-leaf', '', "{{'b': {P}.encode()}}", [], 'none'),
-    ('tree.repr-leaf', '', "{{'f': type('Fn', (), {{'__call__': lambda s: 0, '__repr__': lambda s: {P}}})()}}",
+    ('tree.repr-leaf', '', "{{'kb7': {P}.encode()}}", [], 'none'),
+    ('tree.repr-leaf', '', "{{'kf7': type('Fn', (), {{'__call__': lambda s: 0, '__repr__': lambda s: {P}}})()}}",
      [], 'text'),
     # docstrings / field docs (not rendered today; must not leak if they are)
     ('tree.docstring', '',
@@ -717,45 +716,45 @@ POSITIONS = [
      [], 'none'),
     # references, diffs, contextual values
     ('tree.ref', PRE_IN, 'pg.Ref(In({P}))', [], 'str'),
-    ('tree.ref', PRE_IN, "pg.Dict(r=pg.Ref(In({P})))", [], 'str'),
+    ('tree.ref', PRE_IN, "pg.Dict(kr7=pg.Ref(In({P})))", [], 'str'),
     ('tree.key@summary-style', '', 'pg.Ref({{{P}: 1}})', [], 'text'),
-    ('tree.diff.value', PRE_IN, "pg.diff(In({P}), In('b'))", [], 'str'),
-    ('tree.diff.value', PRE_IN, "pg.diff(In('b'), In({P}, 7), mode='both')", [], 'str'),
+    ('tree.diff.value', PRE_IN, "pg.diff(In({P}), In('kb7'))", [], 'str'),
+    ('tree.diff.value', PRE_IN, "pg.diff(In('kb7'), In({P}, 7), mode='both')", [], 'str'),
     ('tree.diff.value', PRE_IN, "pg.diff(In({P}), In({P}), mode='both')", [], 'str'),
     ('tree.diff.value', '', "pg.diff([1, {P}], [1], mode='both')", [], 'str'),
     ('tree.key@label-style', '', 'pg.diff(pg.Dict({{{P}: 1}}), pg.Dict({{{P}: 2}}))', [], 'text'),
-    ('tree.key@label-style', '', "pg.diff(pg.Dict({{{P}: 1, 'z': 3}}), pg.Dict({{{P}: 1, 'z': 4}}), mode='both')",
+    ('tree.key@label-style', '', "pg.diff(pg.Dict({{{P}: 1, 'kz7': 3}}), pg.Dict({{{P}: 1, 'kz7': 4}}), mode='both')",
      [], 'text'),
     ('tree.contextual', PRE_CTX, 'Pa({P}, Ch())', [], 'str'),
     ('tree.contextual', PRE_CTX, 'Pa({P}, Ch())', [('extra_flags', 'dict(use_inferred=True)')], 'str'),
     # debug tooltip shows option values
-    ('tree.debug-info', '', "{{'a': 1}}", [('debug', 'True'), ('extra_flags', 'dict(note={P})')], 'none'),
+    ('tree.debug-info', '', "{{'ka7': 1}}", [('debug', 'True'), ('extra_flags', 'dict(note={P})')], 'none'),
     # extension classes that configure their own rendering
     ('tree.str-leaf', PRE_CF, 'Cf({P}, [1, {P}])', [], 'str'),
-    ('tree.str-leaf', PRE_CF, "pg.Dict(a=Cf({P}, ['x']), b=[Cf('y', [{P}])])", [], 'str'),
-    ('tree.contextual', PRE_CTX, 'pg.Dict(c=Ch(), s={P})', [], 'str'),
+    ('tree.str-leaf', PRE_CF, "pg.Dict(ka7=Cf({P}, ['x']), kb7=[Cf('y', [{P}])])", [], 'str'),
+    ('tree.contextual', PRE_CTX, 'pg.Dict(kc7=Ch(), ks7={P})', [], 'str'),
     # user hook that suppresses some children (`value_cell is None`)
-    ('tree.str-leaf', '', "{{'a': 1, 'b': {P}}}",
+    ('tree.str-leaf', '', "{{'ka7': 1, 'kb7': {P}}}",
      [('key_style', "'label'"),
       ('extra_flags', "dict(render_value_fn=lambda self, value, **kw: None if value == 1 else "
                       "pg.views.HtmlTreeView.render(self, value=value, **kw))")], 'str'),
-    ('tree.debug-info', '', "{{'a': 1, 'b': [1]}}",
+    ('tree.debug-info', '', "{{'ka7': 1, 'kb7': [1]}}",
      [('key_style', "'label'"), ('title', "'t'"),
       ('extra_flags', "dict(n={P}, render_value_fn=lambda self, value, **kw: None)")], 'none'),
     # the view object's own methods
     ('tree.str-leaf', '', '{P}', [], 'str', 'view.simple_value'),
     ('tree.str-leaf', '', '{P}', [], 'str', 'view.content'),
-    ('tree.str-leaf', '', "{{'k': {P}}}", [], 'str', 'view.render'),
+    ('tree.str-leaf', '', "{{'kk7': {P}}}", [], 'str', 'view.render'),
     ('tree.str-leaf', '', "[{P}]", [], 'str', 'view.content'),
     ('tree.tooltip', '', '{P}', [], 'none', 'view.tooltip'),
-    ('tree.tooltip', '', "{{'k': [{P}]}}", [], 'none', 'view.tooltip'),
+    ('tree.tooltip', '', "{{'kk7': [{P}]}}", [], 'none', 'view.tooltip'),
     ('tree.key@label-style', '', '{P}', [], 'text', 'view.object_key'),
     ('tree.key@summary-style', '', '{{{P}: 1}}', [], 'text', 'view.complex_value'),
     ('tree.key@label-style', '', '{{{P}: 1}}', [('key_style', "'label'")], 'text', 'view.complex_value'),
     ('tree.name-option', '', '1', [('name', '{P}')], 'text', 'view.summary'),
     ('tree.title-option', '', '[1]', [('title', '{P}')], 'text', 'view.summary'),
-    ('tree.debug-info', '', "{{'a': [1]}}", [('debug', 'True'), ('css_classes', "['cc']"),
-                                          ('child_config', "dict(a=dict(extra_flags=dict(n={P})))")], 'none'),
+    ('tree.debug-info', '', "{{'ka7': [1]}}", [('debug', 'True'), ('css_classes', "['cc']"),
+                                          ('child_config', "dict(ka7=dict(extra_flags=dict(n={P})))")], 'none'),
 ]
 
 OPTSETS = [
@@ -807,14 +806,24 @@ def drv_positions(tier, seed):
         opts = _merge_opts([(k, x.replace('{', '{{').replace('}', '}}')) for k, x in obase], extra)
         fmt = (lambda t, twin, core=core: t.format(P=core.src(twin)))
 
-        present = None
+        own = []
         if ex in ('str', 'text') and pos not in ('tree.diff.value',):
-          kind = 'str' if ex == 'str' else 'text'
-          present = (lambda v, p=p, kind=kind, pos=pos: [(kind, p.text, pos.split('tree.')[-1])])
+          own = [('str' if ex == 'str' else 'text', p.text, pos.split('tree.')[-1])]
+        # every other key / leaf of the value has to be there as well.
+        whole_tree = (
+            pos.startswith(('tree.str-leaf', 'tree.key@', 'tree.repr-leaf', 'tree.ref', 'tree.name-option',
+                            'tree.title-option', 'tree.root-path-option', 'tree.debug-info'))
+            and not entry.startswith('view.') and 'pg.diff' not in vt and 'Ch()' not in vt
+            and 'render_value_fn' not in str(extra) and 'Cf(' not in vt)
+        def present(v, kw, own=own, whole_tree=whole_tree):
+          mine = {e[1] for e in own}
+          rest = expected_tree(v, kw) if whole_tree else []
+          return own + [e for e in rest if e[1] not in mine]
+
         if entry.startswith('view.') and oname != 'default':
           continue
         Case(rec, pos, (vt, oname, entry), pre, vsrc, opts, [p], present=present, entry=entry,
-             fmt=fmt, twin=(tier != 'quick' or (oname == 'default'
+             kw_present=True, fmt=fmt, twin=(tier != 'quick' or (oname == 'default'
                                                  and PAYLOAD_NAMES.index(pname) % 2 == 0))).run()
 
   # str leaves around the max_summary_len_for_str boundary.
@@ -870,10 +879,10 @@ Ob = pg.members([(pg.typing.StrKey(), pg.typing.Any())])(type('Ob', (pg.Object,)
 ROOTS = {
     'dict': "{@K0@: @V0@, @K1@: @V1@, 'num': 7919, 'flt': 3.25, 'flag': True, 'none': None, "
             "'lst': [@V2@, 104729, {@K2@: @V3@, 'deep': [@V4@]}, (@V5@, 65537)], "
-            "'obj': In(@V6@), 'ref': pg.Ref(In(@V7@, 6)), 'pl': Pl(@V8@), 'e1': {}, 'e2': []}",
+            "'obj': In(@V6@), 'ref': pg.Ref(In(@V7@, 6)), 'plk': Pl(@V8@), 'e1': {}, 'e2': []}",
     'pg.Dict': "pg.Dict({@K0@: @V0@, @K1@: @V1@, 'num': 7919, 'flt': 3.25, 'flag': True, 'none': None, "
                "'lst': [@V2@, 104729, {@K2@: @V3@, 'deep': [@V4@]}], "
-               "'obj': In(@V6@), 'ref': pg.Ref(In(@V7@, 6)), 'pl': Pl(@V8@), 'e1': {}, 'e2': []})",
+               "'obj': In(@V6@), 'ref': pg.Ref(In(@V7@, 6)), 'plk': Pl(@V8@), 'e1': {}, 'e2': []})",
     'list': "[@V0@, @V1@, {@K0@: 7919, @K1@: [@V2@], 'flt': 3.25}, In(@V6@), None, (@V5@, 65537), Pl(@V8@)]",
     'pg.Object': "Ob(num=7919, lst=[@V2@, {@K2@: @V3@}], obj=In(@V6@, 8), none=None, flt=3.25, "
                  "**{@K0@: @V0@, @K1@: @V1@})",
@@ -958,13 +967,6 @@ def pairwise_rows(params, r, extra_random=0):
   return rows
 
 
-def _call(fn, *a):
-  try:
-    return fn(*a)
-  except Exception:  # pylint: disable=broad-except
-    return None
-
-
 def expected_tree(v, kw):
   """Keys and leaves the documented option semantics say are rendered.
 
@@ -1005,8 +1007,12 @@ def expected_tree(v, kw):
         out.append(('str', x, 'str-leaf'))
       elif isinstance(x, (bool, int, float, type(None))):
         out.append(('leaf', repr(x), 'simple-leaf'))
-      else:
-        out.append(('leaf', repr(x), 'repr-leaf'))
+      elif isinstance(x, bytes):
+        if len(x) <= 64:
+          out.append(('leaf', repr(x), 'bytes-leaf'))
+      elif (type(x).__repr__ is not object.__repr__ and not isinstance(x, (BaseException, type))
+            and type(x).__module__ != 'builtins' and not callable(x)):
+        out.append(('leaf', repr(x), 'repr-leaf'))   # user-defined repr
       return
     for k, c in items:
       if callable(include):
